@@ -166,7 +166,7 @@ fn test(c: &Case) -> TestResult {
                             Act::ConsumeStream(n) => d.consume_stream(*n as usize, &truth)?,
                             Act::Compress => d.compress(&truth)?,
                             Act::ConsumeOutput(n) => d.consume_output(*n as usize)?,
-                            Act::Advance => advance_some(&mut d, &sm.order, &truth)?,
+                            Act::Advance | Act::ForceAdvance => advance_some(&mut d, &sm.order, &truth)?,
                         }
                         vensure!(d.error.is_none(), "stream-unexpected-error", "{ctx} parse failed with {:?}", d.error);
                     }
